@@ -413,6 +413,32 @@ theorem exit_terminates_all :
     rw [exec_refines]
     simp [execSpec, h, St.obs]
 
+/-! ## the transaction outcome of each way of ending -/
+
+/-- Processor.Execute commits exactly the procedures that ran to their end: the Go condition
+    `err == nil && flow == Terminate` is "the outcome is normal" — for every program -/
+theorem commit_iff_normal_end (fuel : Nat) (p : List Stmt) (rv : Option SVal) (st : St) :
+    (executeI fuel p rv st).commits = (blockS fuel p st).1.commits := by
+  have h := (refInv fuel).block p rv st
+  rw [← h.out]
+  have ht := h.rvok.twe
+  generalize executeI fuel p rv st = r at ht ⊢
+  obtain ⟨flow, err, rv', st'⟩ := r
+  cases err with
+  | some e => rfl
+  | none =>
+    cases flow with
+    | terminateWithError => exact absurd rfl (ht rfl)
+    | ret => cases rv' <;> rfl
+    | _ => rfl
+
+/-- EXIT — at any nesting depth, inside a function body or in a sourced file, wherever it finally ends the
+    procedure —, an error, and (in syntax trees the parser rejects) a stray BREAK / CONTINUE / RETURN: no commit -/
+theorem exit_and_error_do_not_commit (fuel : Nat) (p : List Stmt) (rv : Option SVal) (st : St)
+    (h : (blockS fuel p st).1 ≠ .normal) : (executeI fuel p rv st).commits = false := by
+  rw [commit_iff_normal_end]
+  cases ho : (blockS fuel p st).1 <;> first | rfl | exact absurd ho h
+
 /-! ## the tie to the source: walks over the block stack REGENERATED from reference_scope.go on every run
    (extract/scopefacts → Csvq/Gen/ScopeFacts.lean) are the model's lookups, for all block stacks -/
 
@@ -638,12 +664,14 @@ theorem gen_bookkeeping_reviewed : Gen.Scope.bookkeeping =
    ("Processor.NewChildProcessor", ["{", "return", "&Processor{", "Tx:", "proc.Tx,", "ReferenceScope:", "proc.ReferenceScope.CreateChild(),", "}", "}"]),
    ("Processor.Close", ["{", "proc.ReferenceScope.CloseCurrentBlock()", "}"])] := by decide
 
-/-- which statements run in a child block and how it is released, as the model has it: executeChild (IF / CASE
+/-- which statements run in a child block and how it is released, as the model has it: Execute commits under ONE
+    condition after the run (`PRes.commits`); executeChild (IF / CASE
     bodies): NewChildProcessor … child.Close on the one path; While / WhileInCursor: NewChildProcessor, defer Close,
     ClearCurrentBlock at the head of every iteration; a function call: CreateChild, defer CloseCurrentBlock,
     parameters into Blocks[0] of the child -/
 theorem gen_blockHandling_reviewed : Gen.Scope.blockHandling =
-  [("Processor.execute", ["defer func{", "if{", "recover", "if{", "NewFatalError", "}", "}", "}", "for{", "proc.ExecuteStatement", "if{", "return ", "}", "if{", "break", "}", "}", "return "]),
+  [("Processor.Execute", ["ctx.Value", "if{", "if{", "}", "}", "proc.execute", "if{", "proc.AutoCommit", "}", "return flow,err"]),
+   ("Processor.execute", ["defer func{", "if{", "recover", "if{", "NewFatalError", "}", "}", "}", "for{", "proc.ExecuteStatement", "if{", "return ", "}", "if{", "break", "}", "}", "return "]),
    ("Processor.executeChild", ["proc.NewChildProcessor", "child.execute", "if{", "}", "child.Close", "return flow,err"]),
    ("Processor.IfStmt", ["len", "make", "append", "for{", "append", "}", "for{", "Evaluate", "if{", "return TerminateWithError,err", "}", "p.Ternary", "if{", "proc.executeChild", "return call", "}", "}", "if{", "proc.executeChild", "return call", "}", "return Terminate,nil"]),
    ("Processor.Case", ["if{", "Evaluate", "if{", "return TerminateWithError,err", "}", "}", "for{", "Evaluate", "if{", "return TerminateWithError,err", "}", "if{", "cond.Ternary", "}", "else{", "proc.Tx.Flags.GetTimeLocation", "value.Equal", "}", "if{", "proc.executeChild", "return call", "}", "}", "if{", "return Terminate,nil", "}", "proc.executeChild", "return call"]),
